@@ -29,6 +29,10 @@ def _body_is_method_call_on(node, var):
 
 def comprehension(I, node, env, sl, elt_fn):
     """[elt for target in sl] / (elt for target in sl) over an SList."""
+    if len(node.generators) == 1 and len(node.generators[0].ifs) == 1 and isinstance(node.generators[0].target, ast.Name) \
+            and isinstance(node.elt, ast.Name) and node.elt.id == node.generators[0].target.id and sl.family is not None \
+            and _is_child_predicate(node.generators[0].ifs[0], node.elt.id):
+        return filter_list(I, sl, node.generators[0].ifs[0], env, node.elt.id)
     if len(node.generators) != 1 or node.generators[0].ifs:
         _unsupported("comprehension with several generators or conditions over a symbolic-length list")
     g = node.generators[0]
@@ -39,6 +43,10 @@ def comprehension(I, node, env, sl, elt_fn):
         if mc and mc[0] in EVAL_LIKE and sl.family is not None:
             args = [I.eval(a, env) for a in mc[1]]
             return map_eval_like(I, sl, mc[0], args)
+    if isinstance(g.target, ast.Name) and sl.family is not None and _is_child_predicate(elt, g.target.id):
+        # (isinstance(inner, C) and inner.value == 0 for inner in children): a list of formulas
+        fam = sl.family
+        return SList(sl.length, lambda t: child_predicate(I, elt, env, g.target.id, fam, t), f"pred({sl.tag})")
     pre = _single_child_call(elt, g.target)
     if pre is not None and sl.family is not None:
         # e.g. mf.multiply(inner._numeric_partial(name, point), *others) for (i, inner) in enumerate(inners):
@@ -49,6 +57,83 @@ def comprehension(I, node, env, sl, elt_fn):
         results = map_eval_like(I, sl, method, args)
         return lazy_map(I, node, env, sl, None, replaced=(call, results))
     return lazy_map(I, node, env, sl, elt_fn)
+
+
+def filter_list(I, sl, cond, env, var):
+    """[c for c in children if P(c)]: the sub-list of the children that satisfy P, in order.
+    Abstractly: a length c <= k and an index map sigma: [0,c) -> [0,k) with P(sigma(u)); what is
+    known about sums / products over it is the filter lemma (see spec._gmode_den)."""
+    fam = sl.family
+    tag = I.path.fresh_name(f"filter({sl.tag})")
+    c = z3.Int(f"{tag}.len")
+    sigma = z3.Function(f"{tag}.index", sym.I, sym.I)
+    pred = lambda t: child_predicate(I, cond, env, var, fam, t)
+    I.path.assume(z3.And(c >= 0, c <= sl.length))
+    q = qm(I)
+    q.foralls.append((c, lambda u: z3.And(sigma(u) >= 0, sigma(u) < sl.length, pred(sigma(u)))))
+    # nothing was dropped iff everything satisfies P
+    q.links.append((c == sl.length) == gmode.forall_const(I, sl.length, pred, f"all-kept({tag})"))
+    r = SList(c, lambda u: sl.elem(sigma(u)), tag, family=None)
+    r.all_expr = getattr(sl, "all_expr", False)
+    r.filter_of = (sl, sigma, pred)
+    return r
+
+
+CHILD_ATTRS = {"value": "Constant", "n": ("NthPower", "NthRoot"), "base": ("Exponential", "Logarithm")}
+
+
+def _is_child_predicate(node, var):
+    """isinstance(var, C) | isinstance(var, C) and <comparison of var.attr with something not
+    mentioning var> | not <predicate> | <predicate> or/and <predicate>."""
+    if isinstance(node, ast.UnaryOp) and isinstance(node.op, ast.Not):
+        return _is_child_predicate(node.operand, var)
+    if isinstance(node, ast.Call) and isinstance(node.func, ast.Name) and node.func.id == "isinstance" and len(node.args) == 2 \
+            and isinstance(node.args[0], ast.Name) and node.args[0].id == var and not node.keywords:
+        return True
+    if isinstance(node, ast.BoolOp) and isinstance(node.op, ast.And) and len(node.values) == 2 \
+            and _is_child_predicate(node.values[0], var) and isinstance(node.values[0], ast.Call):
+        c = node.values[1]
+        if isinstance(c, ast.Compare) and len(c.ops) == 1 and isinstance(c.left, ast.Attribute) and isinstance(c.left.value, ast.Name) \
+                and c.left.value.id == var and c.left.attr in CHILD_ATTRS \
+                and not any(isinstance(x, ast.Name) and x.id == var for x in ast.walk(c.comparators[0])):
+            return True
+        return False
+    if isinstance(node, ast.BoolOp) and all(_is_child_predicate(v, var) for v in node.values):
+        return True
+    return False
+
+
+def child_predicate(I, node, env, var, fam, t):
+    """The formula of a child predicate at index t (no forking, no refinement of the child)."""
+    if isinstance(node, ast.UnaryOp):
+        return z3.Not(child_predicate(I, node.operand, env, var, fam, t))
+    if isinstance(node, ast.Call):
+        c = I.eval(node.args[1], env)
+        name = getattr(getattr(c, "cls", None), "name", None)
+        if name not in sym.CLS:
+            _unsupported("isinstance against a class that is not a concrete expression class")
+        fam.refinement_facts(I, name)
+        return fam.tagF(t) == sym.CLS[name]
+    if isinstance(node.op, ast.And) and isinstance(node.values[1], ast.Compare):
+        guard = child_predicate(I, node.values[0], env, var, fam, t)
+        c = node.values[1]
+        owner = CHILD_ATTRS[c.left.attr]
+        gname = getattr(getattr(I.eval(node.values[0].args[1], env), "cls", None), "name", None)
+        if gname not in ((owner,) if isinstance(owner, str) else owner):
+            _unsupported(f"attribute {c.left.attr} read under a guard for another class")
+        lhs = fam.attr_func(c.left.attr)(t)
+        rhs = I.eval(c.comparators[0], env)
+        if not is_num(rhs):
+            _unsupported("child attribute compared with a non-number")
+        r = real_term(rhs) if lhs.sort() == sym.R else num_term(rhs)
+        ops = {ast.Eq: lambda a, b: a == b, ast.NotEq: lambda a, b: a != b, ast.Lt: lambda a, b: a < b,
+               ast.LtE: lambda a, b: a <= b, ast.Gt: lambda a, b: a > b, ast.GtE: lambda a, b: a >= b}
+        op = ops.get(type(c.ops[0]))
+        if op is None:
+            _unsupported("comparison operator in a child predicate")
+        return z3.And(guard, op(lhs, r))
+    parts = [child_predicate(I, v, env, var, fam, t) for v in node.values]
+    return z3.And(*parts) if isinstance(node.op, ast.And) else z3.Or(*parts)
 
 
 def lazy_map(I, node, env, sl, elt_fn, replaced=None):
@@ -249,6 +334,8 @@ def b_sum(I, sl, start=0):
 def copy_list(I, sl):
     r = SList(sl.length, sl.elem, f"copy({sl.tag})", family=sl.family)
     r.all_expr = getattr(sl, "all_expr", False)
+    if hasattr(sl, "filter_of"):
+        r.filter_of = sl.filter_of
     return r
 
 
